@@ -43,6 +43,21 @@ ALPHA_STYLE = 'ae1.-+!,:#$@%()"{}/ '
 MUT_MARKUP = ALPHA_MARKUP + "A':_|"
 MUT_STYLE = ALPHA_STYLE + "p0'_*\\"
 
+# "foreign" characters: the complement of the alphabets above.  The statement quantifies over *every input string*; a
+# character that no tokenizer rule knows must end in a parse error (or be accepted), like everything else.  The set is
+# defined from the harness alphabets only (every printable ASCII character that is neither alphanumeric nor in the
+# mutation alphabet of the type), plus control characters, blanks other than ' ', and non-ASCII letters / symbols
+# (Latin-1, Cyrillic, CJK, a currency sign, a zero-width space, a no-break space, one astral-plane character).
+FOREIGN_EXTRA = '\t\n\r\x00\x7f\xa0\xe9\xdf\u044f\u4e2d\u20ac\u200b\U0001f600'
+
+
+def foreign(mut_alpha):
+    return ''.join(chr(c) for c in range(0x20, 0x7f) if chr(c) not in mut_alpha and not chr(c).isalnum()) + FOREIGN_EXTRA
+
+
+FOREIGN_MARKUP = foreign(MUT_MARKUP)      # %&,;<?`~ + extras
+FOREIGN_STYLE = foreign(MUT_STYLE)        # &;<=>?[]^`|~ + extras
+
 MARKUP_SYNTAXES = ['html', 'xml', 'xsl', 'jsx', 'js', 'pug', 'slim', 'haml', 'vue', 'svelte']
 STYLE_SYNTAXES = ['css', 'sass', 'scss', 'less', 'sss', 'stylus']
 
@@ -415,6 +430,46 @@ def random_strings(alpha, corpus, seed, n, typ):
             yield s
 
 
+def foreign_contexts(alpha, fchars, n):
+    """every string u + f + v with u, v over `alpha`, len(u) + len(v) <= n, f one foreign character: the foreign
+    character at every position of every short string"""
+    for total in range(0, n + 1):
+        for t in itertools.product(alpha, repeat=total):
+            w = ''.join(t)
+            for i in range(total + 1):
+                for f in fchars:
+                    yield w[:i] + f + w[i:]
+
+
+def foreign_mutations(corpus, fchars, replace):
+    """every insertion of one foreign character at every position of every corpus entry (inside and outside of
+    quotes, `[...]`, `{...}`, `(...)`, after operators, at both ends); with `replace` also every replacement"""
+    seen = set()
+    for a in corpus:
+        for i in range(len(a) + 1):
+            for f in fchars:
+                cands = [a[:i] + f + a[i:]]
+                if replace and i < len(a):
+                    cands.append(a[:i] + f + a[i + 1:])
+                for m in cands:
+                    if m not in seen:
+                        seen.add(m)
+                        yield m
+
+
+def foreign_random(alpha, fchars, corpus, seed, n, typ):
+    """the strings of `random_strings` (own seed stream) with one to three foreign characters inserted at random positions"""
+    rnd = random.Random('c07-fr-%s-%d' % (typ, seed))
+    seen = set()
+    for s in random_strings(alpha, corpus, seed + 7919, n, typ):
+        for _ in range(rnd.randint(1, 3)):
+            i = rnd.randint(0, len(s))
+            s = s[:i] + rnd.choice(fchars) + s[i:]
+        if s not in seen:
+            seen.add(s)
+            yield s
+
+
 # ------------------------------------------------------------------------------------------ run
 def run(tier, seed):
     quick = tier == 'quick'
@@ -460,6 +515,21 @@ def run(tier, seed):
     clause('markup-random', 'seeded random strings of length 5..12 over %r and splices of two corpus entries' % MUT_MARKUP,
            '%d strings x 3 of 40 seeded random configurations (syntax, text, options, context, maxRepeat)' % n_rand,
            'markup', 'random:40', list(random_strings(MUT_MARKUP, CORPUS_MARKUP, seed, n_rand, 'markup')), False, chunk=500)
+    # --- markup, characters outside the abbreviation alphabet ("for every input string")
+    show_fm = FOREIGN_MARKUP.encode('ascii', 'backslashreplace').decode()
+    n_ctx = 2 if quick else 3
+    clause('markup-foreign-short', 'every string u + f + v: u, v over %r, f one of the %d foreign characters %r (printable ASCII outside '
+           'the markup alphabets, control characters, non-ASCII)' % (ALPHA_MARKUP, len(FOREIGN_MARKUP), show_fm),
+           'len(u) + len(v) <= %d x 4 configurations (html defaults; jsx + text list + BEM + comments + context; pug + text list; html + text)' % n_ctx,
+           'markup', 'core', foreign_contexts(ALPHA_MARKUP, FOREIGN_MARKUP, n_ctx), True, chunk=1500)
+    clause('markup-foreign-corpus', 'every insertion%s of one of the %d foreign characters %r at every position of the %d corpus abbreviations'
+           % ('' if quick else ' / replacement', len(FOREIGN_MARKUP), show_fm, len(CORPUS_MARKUP)),
+           'all such mutations x %d configurations' % (2 if quick else 4),
+           'markup', 'two' if quick else 'core', list(foreign_mutations(CORPUS_MARKUP, FOREIGN_MARKUP, not quick)), True, chunk=1500)
+    n_frand = 5000 if quick else 80000
+    clause('markup-foreign-random', 'seeded random strings (as markup-random, own seed stream) with 1..3 foreign characters inserted at random positions',
+           '%d strings x 3 of 40 seeded random configurations' % n_frand,
+           'markup', 'random:40', list(foreign_random(MUT_MARKUP, FOREIGN_MARKUP, CORPUS_MARKUP, seed, n_frand, 'markup')), False, chunk=500)
     # --- stylesheet
     clause('stylesheet-exhaustive-full', 'all strings over %r' % ALPHA_STYLE,
            'length <= 3 x %d syntaxes x %d option sets (every combination), per-configuration cache' % (len(STYLE_SYNTAXES), len(STYLE_POOL)),
@@ -491,4 +561,17 @@ def run(tier, seed):
     clause('stylesheet-random', 'seeded random strings of length 5..12 over %r and splices of two corpus entries' % MUT_STYLE,
            '%d strings x 3 of 40 seeded random configurations (syntax, options, context, snippets)' % n_rand,
            'stylesheet', 'random:40', list(random_strings(MUT_STYLE, CORPUS_STYLESHEET, seed, n_rand, 'stylesheet')), False, chunk=500)
+    # --- stylesheet, characters outside the abbreviation alphabet
+    show_fs = FOREIGN_STYLE.encode('ascii', 'backslashreplace').decode()
+    n_ctx = 1 if quick else 2
+    clause('stylesheet-foreign-short', 'every string u + f + v: u, v over %r, f one of the %d foreign characters %r' % (ALPHA_STYLE, len(FOREIGN_STYLE), show_fs),
+           'len(u) + len(v) <= %d x %d syntaxes x %d option sets (every combination), per-configuration cache' % (n_ctx, len(STYLE_SYNTAXES), len(STYLE_POOL)),
+           'stylesheet', 'full', foreign_contexts(ALPHA_STYLE, FOREIGN_STYLE, n_ctx), True, chunk=100)
+    clause('stylesheet-foreign-corpus', 'every insertion%s of one of the %d foreign characters %r at every position of the %d corpus abbreviations'
+           % ('' if quick else ' / replacement', len(FOREIGN_STYLE), show_fs, len(CORPUS_STYLESHEET)),
+           'all such mutations x %s' % ('3 configurations' if quick else 'every syntax x every option set'),
+           'stylesheet', 'core' if quick else 'full', list(foreign_mutations(CORPUS_STYLESHEET, FOREIGN_STYLE, not quick)), True, chunk=800)
+    clause('stylesheet-foreign-random', 'seeded random strings (as stylesheet-random, own seed stream) with 1..3 foreign characters inserted at random positions',
+           '%d strings x 3 of 40 seeded random configurations' % n_frand,
+           'stylesheet', 'random:40', list(foreign_random(MUT_STYLE, FOREIGN_STYLE, CORPUS_STYLESHEET, seed, n_frand, 'stylesheet')), False, chunk=500)
     return out
